@@ -551,6 +551,10 @@ def _make_init(cls: t.Type[PaneBase], fields: t.Sequence[Field]):
             from_dict_set = kwargs.pop('_pane_set_fields', None)
             for (k, v) in from_dict.items():
                 object.__setattr__(self, k, v)
+            for f in self.__pane_info__.fields:
+                # (fields which are no constructor arguments get a product of their factory as well)
+                if not f.init and f.default_factory is not None and f.name not in from_dict:
+                    object.__setattr__(self, f.name, f.default_factory())
             # the record of set fields is final before `__post_init__` runs (as on the regular path)
             object.__setattr__(self, PANE_SET_FIELDS, set(from_dict.keys() if from_dict_set is None else from_dict_set))
             if hasattr(self, POST_INIT):
@@ -567,6 +571,8 @@ def _make_init(cls: t.Type[PaneBase], fields: t.Sequence[Field]):
 
         for f in self.__pane_info__.fields:
             if not f.init:
+                if f.default_factory is not None:
+                    object.__setattr__(self, f.name, f.default_factory())
                 continue
             if f.name in bound_args:
                 val = bound_args[f.name]
